@@ -215,6 +215,7 @@ class Symbolizer:
                 if found or len(pr) != 1:
                     break
                 bb_, hops = pr[0], hops + 1
+        if name is None:
             # indirect call through a value
             return ('call', '<indirect>', (self.operand(t.func, depth, stack),) + args, t.bb)
         return ('call', name, args, t.bb)
